@@ -88,6 +88,7 @@ type Outcome struct {
 	Sample       any            `json:"sample,omitempty"`
 	Evals        int            `json:"evals,omitempty"` // sub-evaluations inside the run (default 1)
 	Log          []string       `json:"log,omitempty"`
+	Recorded     []sim.Switch   `json:"recorded,omitempty"` // schedule decisions taken (set when a violation was found)
 }
 
 func (o *Outcome) AddClass(format string, a ...any) {
@@ -173,6 +174,9 @@ func Finish(o *Outcome, s *sim.Sim, requests int) {
 	}
 	if s.KeepLog {
 		o.Log = s.Log
+	}
+	if len(o.Violations) > 0 && s.Policy != sim.Replay && s.Policy != sim.Seq {
+		o.Recorded = s.Recorded
 	}
 }
 
